@@ -137,10 +137,10 @@ Definition push_space (st : gstate) : gstate :=
 Definition uncomment (st : gstate) : gstate :=
   mk_gstate (g_out st ++ [10]) false (S (g_line st)).
 
-Definition last_byte (s : bytes) : option N :=
-  match rev s with
+Fixpoint last_byte (s : bytes) : option N :=
+  match s with
   | [] => None
-  | c :: _ => Some c
+  | c :: s' => match s' with [] => Some c | _ :: _ => last_byte s' end
   end.
 
 Definition needs_space (st : gstate) (next : N) : bool :=
